@@ -96,6 +96,7 @@ type rangeState struct {
 	mt      *types.Map
 	m       string
 	visited string // component name of the ghost visited set
+	count   string // component name of the ghost number of keys produced so far
 	isStr   bool
 	str     string
 	pos     string // component for string position
@@ -110,6 +111,8 @@ func (t *FnTrans) rangeInit(x *ssa.Range) {
 		ks := t.sortOf(mt.Key())
 		rs.visited = t.rangeComp(x, nil)
 		t.set(rs.visited, fmt.Sprintf("((as const (Array %s Bool)) false)", ks))
+		rs.count = t.comp("R."+x.Name()+".count", "Int")
+		t.set(rs.count, "0")
 	} else {
 		rs.isStr = true
 		rs.str = t.term(x.X)
@@ -154,6 +157,19 @@ func (t *FnTrans) rangeNext(x *ssa.Next) {
 	t.assume(t.rangeFact(k, rs.mt.Key()))
 	t.assume(t.rangeFact(v, rs.mt.Elem()))
 	t.set(rs.visited, ite(okn, app("store", vis, k, "true"), vis))
+	// the number of keys produced so far (spec: visitedcount): the keys are distinct members of the map, so while the
+	// loop cannot change any map of this type their number stays below the size of the map
+	cnt := t.get(rs.count)
+	t.assume(app("<=", "0", cnt))
+	for _, l := range t.curLoops {
+		if l.head == x.Block() && !l.all && !l.writes[dc] {
+			_, _, lc := t.mapComps(rs.mt)
+			ln := app("select", t.get(lc), rs.m)
+			t.assume(implies(and(okn, not(eq(rs.m, "0"))), app("<", cnt, ln)))
+			t.assume(implies(and(not(okn), not(eq(rs.m, "0"))), eq(cnt, ln)))
+		}
+	}
+	t.set(rs.count, ite(okn, app("+", cnt, "1"), cnt))
 	t.vals[x] = Val{Tup: []Val{{S: okn}, {S: k}, {S: v}}}
 }
 
@@ -904,6 +920,9 @@ func (t *FnTrans) rangeComp(x *ssa.Range, l *loopInfo) string {
 	var c string
 	if mt, ok := XT.Underlying().(*types.Map); ok {
 		c = t.comp("R."+x.Name()+".visited", "(Array "+t.sortOf(mt.Key())+" Bool)")
+		if l != nil {
+			l.writes[t.comp("R."+x.Name()+".count", "Int")] = true
+		}
 	} else {
 		c = t.comp("R."+x.Name()+".pos", "Int")
 	}
